@@ -78,6 +78,23 @@ def enc_res(r, payload):
 
 def oracle_tables(tree, engine, sys_id, pd):
     """render / yaml_load / match tables for every file of the tree, by calling the libraries directly"""
+    render, yload, match = oracle_dicts(tree, engine, sys_id, pd)
+    return [enc_render(render), enc_yload(yload), enc_match(match)]
+
+
+def enc_render(render):
+    return [[k, enc_res(v, lambda x: x)] for k, v in render.items()]
+
+
+def enc_yload(yload):
+    return [[k, enc_res(v, enc)] for k, v in yload.items()]
+
+
+def enc_match(match):
+    return [[k, enc_res(v, lambda x: 1 if x else 0)] for k, v in match.items()]
+
+
+def oracle_dicts(tree, engine, sys_id, pd):
     render, yload, match = {}, {}, {}
     loaded = []
     for rel, t in tree.items():
@@ -109,9 +126,7 @@ def oracle_tables(tree, engine, sys_id, pd):
                         match[k] = ("ok", bool(system_matcher.match(k, system_id=sys_id, system_data=SmartLookupDict(pd))))
                     except Exception as e:     # noqa: BLE001
                         match[k] = ("exc", exc_code(e))
-    return [[[k, enc_res(v, lambda x: x)] for k, v in render.items()],
-            [[k, enc_res(v, enc)] for k, v in yload.items()],
-            [[k, enc_res(v, lambda x: 1 if x else 0)] for k, v in match.items()]]
+    return render, yload, match
 
 
 # ------------------------------------------------------------------ content generation
